@@ -13,6 +13,7 @@ import (
 	"sync"
 
 	"cuelang.org/go/internal/par"
+	"cuelang.org/go/internal/verifhook"
 )
 
 // A Reqs is the requirement graph on which Minimal Version Selection (MVS) operates.
@@ -141,6 +142,7 @@ func buildList[V comparable](targets []V, reqs Reqs[V], upgrade func(V) (V, erro
 			required = append([]V{u}, required...)
 		}
 		g.Require(m, required)
+		verifhook.At("MVS_Require", m)
 		mu.Unlock()
 
 		for _, r := range required {
